@@ -482,7 +482,17 @@ def step (st : St) (line : String) : St × String :=
       let reqs := st.past ++ reqsOf st.gen tr tr.length
       -- clean Close + restart: identical protocol-visible state
       let same := before == after.filter (fun x => !x.startsWith "f:" && x != "ok")
-      let extra := if same then none else some "close-restart-differs"
+      -- told apart: the only difference is the EPOCH DescribeProducers reports for an active producer of a partition
+      -- (token d:<tp>:<pid>/<epoch>/<last sequence>/<transaction start>)
+      let afterP := after.filter (fun x => !x.startsWith "f:" && x != "ok")
+      let onlyB := before.filter (fun x => !afterP.contains x)
+      let onlyA := afterP.filter (fun x => !before.contains x)
+      let epochOnly := !onlyB.isEmpty && onlyB.length == onlyA.length && (onlyB.zip onlyA).all (fun (x, y) =>
+        x.startsWith "d:" && y.startsWith "d:" &&
+        match (x.splitOn "/"), (y.splitOn "/") with
+        | [a1, _, a3, a4], [b1, _, b3, b4] => a1 == b1 && a3 == b3 && a4 == b4
+        | _, _ => false)
+      let extra := if same then none else if epochOnly then some "describeproducers-epoch-differs-after-clean-restart" else some "close-restart-differs"
       let skew := rec_.skew || st.skew
       let junk := rec_.junk || st.junk
       let v := verdictOf after reqs st.crashed st.gen skew junk extra
